@@ -124,6 +124,15 @@ class Ctx:
             with open(out + '.tmp', 'w') as f:
                 _json.dump(result, f)
             _os.replace(out + '.tmp', out)
+        # (no exit handlers run from here: the worker's private working directory is removed by hand)
+        try:
+            import shutil as _shutil
+            cwd = _os.getcwd()
+            if _os.path.basename(cwd).startswith('verif-cwd-'):
+                _os.chdir('/')
+                _shutil.rmtree(cwd, ignore_errors=True)
+        except Exception:
+            pass
         _os._exit(0)
 
     # ---- serialisation ----------------------------------------------------
